@@ -377,8 +377,13 @@ func pinVerdict(pc *PinCase, evs []Event, complete bool) (kind, detail string) {
 		}
 		return false
 	}
+	// "unsatisfiable on its face" is judged only for the forms the property
+	// lists: `false`, and a conjunction whose pinning conjuncts are exactly two
+	// disjoint equalities / prefixes / ranges. With a third conjunct in between
+	// a planner that combines pairwise need not notice, and the reads it issues
+	// are still confined to one conjunct's region (checked below).
 	unsat := pc.False
-	for i := 0; i < len(pc.Atoms) && !unsat; i++ {
+	for i := 0; i < len(pc.Atoms) && !unsat && len(pc.Atoms) == 2; i++ {
 		for j := i + 1; j < len(pc.Atoms) && !unsat; j++ {
 			a, b := &pc.Atoms[i], &pc.Atoms[j]
 			switch {
